@@ -120,6 +120,8 @@ class VStructuralTranslatorL4(
     return '\n\n'.join( subcomp_decls )
 
   def rtlir_tr_subcomp_decl( s, m, c_id, c_rtype, c_array_type, port_conns, ifc_conns ):
+    # The name of the sub-component becomes the name of the instance(s)
+    s.check_decl( c_id, f"Note: sub-component {c_id} of {m}" )
 
     def pretty_comment( string ):
       comments = [
